@@ -22,6 +22,10 @@ CHECKS = {
   text='Coq theorems for all keys, IVs, block-aligned ciphertexts and all seek/read/tell histories: every read of the CBC wrapper model (at any position, incl. inside the first block, mid-block, at and beyond the end) returns the slice of the whole-stream CBC decryption and leaves the position at the end of the bytes returned, contents unchanged -- over a plain file and over a window; AES decryption is an uninterpreted function assumed only to return 16-byte blocks; the model calls only tell/seek/read on the underlying file; extracted model and PyCryptodome MODE_CBC oracle run against create_cbc_io with a write log on the base file.',
   note='Trusted: Coq kernel, translator (one leaf), extraction + driver, hand models PyFile/Window/Cipher/CbcIO (tie 2), PyCryptodome as the AES oracle. Section hypothesis length (D k b) = 16 (shown satisfiable by an Example).',
   technique='Rocq/Coq refinement proof (block algebra + I/O sequencing over lawful files) + correspondence'),
+ 'C07': dict(
+  text='Coq theorem C07_alias over the _normalize_path regenerated from exefs.py: every stored name (not starting with "/" and not ending in ".bin") is reached by N, /N, N.bin and /N.bin, for all names, with str.lower uninterpreted; slot codec round trip and both rejects proved on the header model; extracted header parser run against ExeFSReader on valid and malformed headers; entries, aliases, missing names and entry bytes checked against an independent builder.',
+  note='Trusted: Coq kernel, translator, extraction + driver, hand model Exefs.v (tie 2), independent builder. Partial: the header theorem is per 16-byte slot; entry bytes rely on C09 windows and are sampled here.',
+  technique='Rocq/Coq proof over regenerated kernel + slot codec round trip + correspondence'),
 }
 
 NOT_YET = 'check not built yet in this session (work in progress; see DESIGN.md section 10 order of work)'
